@@ -281,6 +281,30 @@ func Override(target string, fn interface{}) {}
 
 func LocksHeld() int { return 0 }
 
+var concurrent sync.WaitGroup
+
+// Concurrently runs fn as a second goroutine of the program under test.  Symbolically it is a logical
+// goroutine that is parked when it needs a mutex another one holds and resumed when it is released;
+// natively a real goroutine that gets a head start of 100 ms (enough to reach the mutex it blocks on).
+func Concurrently(fn func()) {
+	concurrent.Add(1)
+	go func() { defer concurrent.Done(); fn() }()
+	time.Sleep(100 * time.Millisecond)
+}
+
+// Blocked: number of goroutines started with Concurrently that have not finished.  Natively waits up to
+// two seconds for them first.
+func Blocked() int {
+	done := make(chan struct{})
+	go func() { concurrent.Wait(); close(done) }()
+	select {
+	case <-done:
+		return 0
+	case <-time.After(2 * time.Second):
+		return 1
+	}
+}
+
 // Spawned: symbolically the number of goroutines started (and not run inline) so far on this path.
 func Spawned() int { return 0 }
 
